@@ -89,4 +89,4 @@ def main():
 
 
 if __name__ == '__main__':
-    main()
+    guarded(main)
